@@ -17,7 +17,7 @@ from vx.units.rbranch import add_branch_helpers
 from vx.units.rscan import SPEC as SCAN_SPEC
 
 PROPS = ['C01']
-RLIMIT = 100
+RLIMIT = 200
 MULTIPLE_ERRORS = 2   # a failing 200-arm query is expensive: do not ask the solver for many more counterexamples
 R = 'duke/src/class_reader.rs'
 CC = 'duke/src/class_constants.rs'
